@@ -98,7 +98,7 @@ Section Run.
       apply reaches_step.
       + rewrite F. discriminate.
       + apply step_single; assumption.
-      + rewrite F. cbn. rewrite !app_length. lia.
+      + rewrite F. rewrite <- app_comm_cons. cbn [length]. rewrite (app_length args). lia.
   Qed.
 
   Theorem impl_parse_run_cmds prog pos0 st' :
